@@ -23,6 +23,7 @@ type scriptReader struct {
 	rerr  error
 	pos   int
 	delay time.Duration
+	log   []int // sizes of the results actually returned
 }
 
 var errInjected = errors.New("injected reader failure")
@@ -55,6 +56,7 @@ func (s *scriptReader) Read(p []byte) (int, error) {
 	}
 	copy(p, s.data[s.pos:s.pos+n])
 	s.pos += n
+	s.log = append(s.log, n)
 	if s.delay > 0 {
 		time.Sleep(s.delay)
 	}
@@ -160,6 +162,18 @@ func suiteStream(rn *runner, r *rng, tier string) {
 		if useReuse {
 			reuse = make(chan *simdjson.ParsedJson, 8)
 		}
+		// the chunks cut from the reader, as seen at the hook
+		var chunkLens []int
+		var chunkCat []byte
+		simdjson.VerifChunkHook = func(b []byte) {
+			if len(b) == 0 {
+				return // nothing was read before the end: no chunk (it would be dropped as blank anyway)
+			}
+			chunkLens = append(chunkLens, len(b))
+			if !huge {
+				chunkCat = append(chunkCat, b...)
+			}
+		}
 		simdjson.ParseNDStream(rd, res, reuse)
 		var got []string
 		var finalErr error
@@ -200,6 +214,21 @@ func suiteStream(rn *runner, r *rng, tier string) {
 				break loop
 			}
 		}
+		simdjson.VerifChunkHook = nil
+		if closed && !huge {
+			// chunker model (Lean: Stream.run, for which the partition theorem is proved) on the reads that happened
+			fin := "eof"
+			if errAt >= 0 {
+				fin = "fail"
+			}
+			if !strings.HasPrefix(text, string(chunkCat)) {
+				rn.disagree(disagreement{Kind: "spec", Ops: []string{"stream-chunks " + hx([]byte(text))}, At: 0, Impl: "chunks do not concatenate to a prefix of the stream", Other: "<prefix>", Note: "stream"})
+			}
+			tc := &testCase{note: "chunks"}
+			tc.ops = []string{fmt.Sprintf("chunks %s %s %s", fin, joinInts(rd.log), hx([]byte(text)))}
+			tc.impl = []string{fmt.Sprintf("chunks %s %s", fin, joinInts(chunkLens))}
+			rn.addPrepared(tc)
+		}
 		rn.rep.Evaluations++
 		op := fmt.Sprintf("stream frag=%d err@=%d reuse=%v %s", mode, errAt, useReuse, hx([]byte(text)))
 		fail := func(impl, other string) {
@@ -236,7 +265,21 @@ func suiteStream(rn *runner, r *rng, tier string) {
 			rn.rep.Samples = append(rn.rep.Samples, map[string]interface{}{"op": clip([]string{op}, 1)[0], "delivered_docs": len(got), "final_error": fmt.Sprint(finalErr)})
 		}
 	}
-	rn.rep.Rule = "well-formed NDJSON streams (1-6000 lines, blank lines anywhere, LF/CRLF) through scripted readers: 1-byte, tiny, random, line-aligned, line-straddling and single-read fragmentations; optional injected reader error at a random offset; with and without reuse channel; deliveries compared with per-line Parse; distinct = (fragmentation, error, reuse, line count, blank lines)"
+	rn.rep.Rule = "well-formed NDJSON streams (1-6000 lines, blank lines anywhere, LF/CRLF) through scripted readers: 1-byte, tiny, random, line-aligned, line-straddling and single-read fragmentations; optional injected reader error at a random offset; with and without reuse channel; deliveries compared with per-line Parse; the chunks cut from the reader (hook) compared with the Lean chunker model run on the reads that actually happened; distinct = (fragmentation, error, reuse, line count, blank lines)"
+}
+
+func joinInts(v []int) string {
+	if len(v) == 0 {
+		return "-"
+	}
+	var b strings.Builder
+	for i, x := range v {
+		if i > 0 {
+			b.WriteByte(',')
+		}
+		fmt.Fprint(&b, x)
+	}
+	return b.String()
 }
 
 // splitTop splits "a,b,c" at top-level commas of an ordered rendering.
